@@ -55,6 +55,60 @@ pub(super) fn validate_typename_presence(
     Ok(())
 }
 
+/// A subscription must have exactly one root field, also when its selection goes through
+/// fragment spreads or inline fragments.
+pub(super) fn validate_subscription_root_fields(
+    query: &BoundQuery<'_>,
+) -> Result<(), QueryValidationError> {
+    for operation in query.query.operations.iter() {
+        if !matches!(
+            operation._operation_type,
+            super::operations::OperationType::Subscription
+        ) {
+            continue;
+        }
+
+        let root_fields =
+            count_root_fields(&operation.selection_set, query.query, &mut Vec::new());
+
+        if root_fields != 1 {
+            return Err(QueryValidationError::new(
+                crate::constants::MULTIPLE_SUBSCRIPTION_FIELDS_ERROR.to_owned(),
+            ));
+        }
+    }
+
+    Ok(())
+}
+
+fn count_root_fields(
+    selection_set: &[SelectionId],
+    query: &Query,
+    visited_fragments: &mut Vec<ResolvedFragmentId>,
+) -> usize {
+    selection_set
+        .iter()
+        .map(|id| match query.get_selection(*id) {
+            Selection::Field(_) | Selection::Typename => 1,
+            Selection::InlineFragment(inline_fragment) => {
+                count_root_fields(&inline_fragment.selection_set, query, visited_fragments)
+            }
+            Selection::FragmentSpread(fragment_id) => {
+                if visited_fragments.contains(fragment_id) {
+                    0
+                } else {
+                    visited_fragments.push(*fragment_id);
+                    count_root_fields(
+                        &query.get_fragment(*fragment_id).selection_set,
+                        query,
+                        visited_fragments,
+                    )
+                }
+            }
+        })
+        .sum()
+}
+
 fn selection_set_contains_type_name(
     parent_type_id: TypeId,
     selection_set: &[SelectionId],
